@@ -92,6 +92,16 @@ var c01Apps = []c01AppDef{
 		a.Node("_catch", "o", codec.Ins{Op: codec.HALT}, codec.Ins{Op: codec.INCMP, Sym: "_", Sel: "*"})
 		return a
 	}, []string{"1", "zz"}, nil},
+	{"bigendval", 3, func(v int) *app.App {
+		// the last page of the session is larger than every page before it AND the session ends with a value
+		// (the last loaded one), which the engine appends to the final page
+		a := app.New("bigendval")
+		a.Node("root", "s", codec.Ins{Op: codec.MOUT, Sym: "g", Sel: "1"}, codec.Ins{Op: codec.HALT}, codec.Ins{Op: codec.INCMP, Sym: "fin", Sel: "1"})
+		a.Node("fin", []string{"a rather long farewell page that needs room", "bye for now", "thank you, "}[v], codec.Ins{Op: codec.LOAD, Sym: "gv", N: 20}, codec.Ins{Op: codec.HALT})
+		a.Node("_catch", "o", codec.Ins{Op: codec.HALT}, codec.Ins{Op: codec.INCMP, Sym: "_", Sel: "*"})
+		a.Func("gv", constFunc([]string{"ok", "see you", "x"}[v]))
+		return a
+	}, []string{"1", "zz"}, nil},
 	{"redisplay", 3, func(v int) *app.App {
 		// a node that displays a second time after its HALT without any move in between (two display
 		// segments; a taken CATCH . re-display as in examples/validate)
@@ -190,7 +200,11 @@ func c01Unlimited(d c01AppDef, variant int, mode string, inputs []string) []app.
 	return out
 }
 
+// c01ExitValues: the value a session of the app ends with (the last loaded one), per variant.
+var c01ExitValues = map[string][]string{"bigendval": {"ok", "see you", "x"}, "end": {"", "gv", "lastvalue"}}
+
 func c01Sized(d c01AppDef, variant int, mode string, inputs []string, size uint32, base []app.Resp, c *mc.Ctx) (sig, msg string, reqs int) {
+	v2 := variant
 	sa := d.build(variant)
 	c01Variant[sa] = variant
 	s := c01Session(sa, mode, size)
@@ -219,6 +233,11 @@ func c01Sized(d c01AppDef, variant int, mode string, inputs []string, size uint3
 		}
 		if base[k].ExecErr != "" || base[k].FlushErr != "" {
 			return "", "", reqs
+		}
+		if !r.Cont && !base[k].Cont && r.Out != "" && len(r.Out) < len(base[k].Out) && strings.HasSuffix(base[k].Out, r.Out) && v2 < len(c01ExitValues[d.name]) && c01ExitValues[d.name][v2] == r.Out {
+			// witness predicate: the session ended, and what was delivered is exactly the session's exit value (the
+			// last loaded value) without the final page in front of it
+			return "final-page-dropped-exit-value-only", fmt.Sprintf("%s: the final page does not fit and is dropped without an error; only the exit value %q is delivered (without a limit: %q)", where, r.Out, base[k].Out), reqs
 		}
 		if r.Out != base[k].Out {
 			return "truncated-or-altered-page", fmt.Sprintf("%s: output %q differs from the page rendered without a limit %q", where, r.Out, base[k].Out), reqs
